@@ -17,6 +17,7 @@ import SkNet.Lemmas.GetCycles
 import SkNet.Lemmas.Dedup
 import SkNet.Lemmas.CyclesFuel
 import SkNet.Lemmas.Closure
+import SkNet.Lemmas.Complete
 
 namespace SkNet.C12
 open SkNet SkNet.Connectivity SkNet.Cycles
@@ -514,6 +515,124 @@ theorem getCycles_terminates (nCC : Bool → Nat) (labels : Bool → List Nat) (
         split
         · rename_i hn; exact absurd hn this
         · simp
+
+/-- ★ `getCycles_complete_directed` ("all of them for a directed graph"): on a directed graph (flag `True`, or
+    inferred), with scipy's contract for the strong components, every simple cycle of the graph is returned, up to
+    rotation: the cycle lies in one strong component with more than one node (or is a self-loop, recorded first);
+    the first node of that component reaches it; the traversal explores every simple path from that node
+    (`cyclesLoop_explores`), in particular the one that runs to the cycle and once around it; the duplicate removal
+    keeps its rotation with the least node first. -/
+theorem getCycles_complete_directed (fuel : Nat) (nCC : Bool → Nat) (labels : Bool → List Nat) (m : Mat)
+    (directed : Option Bool) (cs : List (List Nat))
+    (hc : m.Canon) (_hsq : m.nRow = m.nCol) (hnn : m.NonNeg)
+    (hd : resolveDirected m directed = .ok true)
+    (hlab : IsLabelling m.nRow m.adj true (labels true))
+    (hn : nCC true = (npUnique (labels true)).length)
+    (h : getCyclesWith fuel nCC labels m directed = .ok (some cs)) :
+    ∀ C, IsSimpleCycle m.nRow m.adj true C → ∃ d ∈ cs, IsRotation C d := by
+  intro C hC
+  obtain ⟨hlen, hsame⟩ := hlab
+  obtain ⟨hnd, hlt, hcl, _⟩ := id hC
+  have hreachC := closedChain_reach hcl
+  unfold getCyclesWith at h
+  simp only [hd, Bool.true_and, Bool.not_true, Bool.false_and, Bool.false_eq_true, ↓reduceIte] at h
+  -- a cycle with two nodes forces two nodes with one label
+  have htwo : ∀ c0 c1, c0 ∈ C → c1 ∈ C → c0 ≠ c1 →
+      (labels true).getD c0 0 = (labels true).getD c1 0 ∧ c0 < (labels true).length ∧ c1 < (labels true).length := by
+    intro c0 c1 h0 h1 _
+    have l0 := hlt c0 h0
+    have l1 := hlt c1 h1
+    exact ⟨(hsame c0 c1 l0 l1).mpr ⟨hreachC c0 h0 c1 h1, hreachC c1 h1 c0 h0⟩, hlen ▸ l0, hlen ▸ l1⟩
+  match C, hC, hnd, hlt, hcl, hreachC, htwo with
+  | [], _, _, _, hcl, _, _ => exact absurd hcl (by simp [IsClosedChain])
+  | [v], _, _, hlt, hcl, _, _ =>
+    -- a self-loop: recorded before the traversal
+    have hv : v < m.nRow := hlt v (by simp)
+    have hmem : v ∈ m.adj v := by
+      have : isChain m.adj ([v] ++ [v]) = true := hcl
+      simpa [isChain] using this
+    have hpos : 0 < m.val v v := Rat.lt_of_le_of_ne (hnn v v) (Ne.symm ((hc v v hv).mp hmem).2)
+    have h0 : [v] ∈ (selfLoops m).map fun v => [v] :=
+      List.mem_map.mpr ⟨v, by simp [selfLoops, hv, hpos], rfl⟩
+    split at h
+    · cases h; exact ⟨[v], h0, [], [v], rfl, rfl⟩
+    · split at h
+      · cases h
+      · rename_i cycles hcy
+        cases h
+        have hin := (cyclesFromStarts_explores m.adj fuel _ _ cycles hcy).1 _ h0
+        exact ⟨_, (dedupCycles_complete cycles [] [] (by simp)).2 _ hin, isRotation_rollMin ⟨[], [v], rfl, rfl⟩⟩
+  | c0 :: c1 :: t, hC, hnd, hlt, _, hreachC, htwo =>
+    have hne : c0 ≠ c1 := by
+      intro he; subst he
+      simp at hnd
+    obtain ⟨heq, hl0, hl1⟩ := htwo c0 c1 (by simp) (by simp) hne
+    split at h
+    · -- as many strong components as nodes: impossible
+      rename_i hcount
+      exfalso
+      have hcount' : (npUnique (labels true)).length = (labels true).length := by
+        rw [hlen, ← hn]; simpa using hcount
+      have hndl := (npUnique_length_eq_iff_nodup _).mp hcount'
+      exact hne ((nodup_iff_getD_inj _).mp hndl c0 c1 hl0 hl1 heq)
+    · split at h
+      · cases h
+      · rename_i cycles hcy
+        cases h
+        -- the label of the cycle occurs more than once: its first node is a start of the traversal
+        have hL : (labels true).getD c0 0 ∈ labels true := by
+          simp [List.getD_eq_getElem?_getD, hl0]
+        have hcount : 1 < (labels true).count ((labels true).getD c0 0) := by
+          rw [← argwhereEq_length]
+          have h1 : c0 ∈ argwhereEq (labels true) ((labels true).getD c0 0) := mem_argwhereEq.mpr ⟨hl0, rfl⟩
+          have h2 : c1 ∈ argwhereEq (labels true) ((labels true).getD c0 0) := mem_argwhereEq.mpr ⟨hl1, heq.symm⟩
+          have := (nodup_sub_length (u := [c0, c1]) (by simp [hne]) (by
+            intro a ha
+            simp only [List.mem_cons, List.not_mem_nil, or_false] at ha
+            rcases ha with rfl | rfl
+            · exact h1
+            · exact h2)).1
+          have h3 : ([c0, c1] : List Nat).length = 2 := rfl
+          omega
+        have hstart : firstOfLabel (labels true) ((labels true).getD c0 0) ∈
+            ((npUnique (labels true)).filter fun v => (labels true).count v > 1).map (firstOfLabel (labels true)) :=
+          List.mem_map.mpr ⟨_, List.mem_filter.mpr ⟨mem_npUnique.mpr hL, by simpa using hcount⟩, rfl⟩
+        have hsl : firstOfLabel (labels true) ((labels true).getD c0 0) < (labels true).length :=
+          List.idxOf_lt_length_iff.mpr hL
+        have hslab : (labels true).getD (firstOfLabel (labels true) ((labels true).getD c0 0)) 0 =
+            (labels true).getD c0 0 := by
+          have hsl' : List.idxOf ((labels true).getD c0 0) (labels true) < (labels true).length := hsl
+          show (labels true).getD (List.idxOf ((labels true).getD c0 0) (labels true)) 0 = _
+          rw [List.getD_eq_getElem?_getD, List.getElem?_eq_getElem hsl']
+          exact List.getElem_idxOf hsl'
+        have hreach : Reach m.adj (firstOfLabel (labels true) ((labels true).getD c0 0)) c0 :=
+          ((hsame _ c0 (hlen ▸ hsl) (hlen ▸ hl0)).mp hslab).1
+        obtain ⟨d, hdm, hrot⟩ := cycle_found fuel _ _ cycles hcy hstart hC (c := c0) (by simp) hreach
+        exact ⟨_, (dedupCycles_complete cycles [] [] (by simp)).2 d hdm, isRotation_rollMin hrot⟩
+
+/-- ★ "none iff acyclic" (directed graph): `get_cycles` returns the empty list exactly when the graph has no
+    directed cycle. -/
+theorem getCycles_empty_iff_acyclic_directed (fuel : Nat) (nCC : Bool → Nat) (labels : Bool → List Nat) (m : Mat)
+    (directed : Option Bool) (cs : List (List Nat))
+    (hc : m.Canon) (hsq : m.nRow = m.nCol) (hnn : m.NonNeg)
+    (hd : resolveDirected m directed = .ok true)
+    (hlab : IsLabelling m.nRow m.adj true (labels true))
+    (hn : nCC true = (npUnique (labels true)).length)
+    (h : getCyclesWith fuel nCC labels m directed = .ok (some cs)) :
+    cs = [] ↔ ¬ HasCycle m.nRow m.adj := by
+  have hwf := Canon.wf hc hsq
+  constructor
+  · intro he hcyc
+    obtain ⟨C, hC⟩ := exists_simpleCycle_of_hasCycle hwf hcyc
+    obtain ⟨d, hdm, _⟩ := getCycles_complete_directed fuel nCC labels m directed cs hc hsq hnn hd hlab hn h C hC
+    rw [he] at hdm; cases hdm
+  · intro hno
+    cases cs with
+    | nil => rfl
+    | cons c t =>
+      exfalso
+      have := getCycles_sound fuel nCC labels m directed true (c :: t) hc hsq hd hlab.1 h c List.mem_cons_self
+      exact hno (hasCycle_of_simpleCycle this)
 
 /-- the directed square with a chord 1 → 3 (the repository's own test): two cycles, both genuine -/
 def chordSquare : Mat :=
